@@ -501,3 +501,7 @@ def run(ctx: Ctx, rep: Report, tier: str):
     rep.check("C09.R10", "__db_execute|reconnect", ex, good, "reconnect, then re-execute, under the mutex", "the reconnect-and-retry arm of __db_execute is gone or no longer re-executes the statement")
     rep.extra["sql_statements"] = [st.text for (_, _, st, _) in c.stmts]
     rep.assume("SQLite itself is durable and assigns INTEGER PRIMARY KEY row ids that are not in use")
+    from rules.common import data_rows_follow_storage
+    rep.rule("C09.R12", "per-tag data (cursor, walk marker) behaves as one map entry: deleting the tag removes every stored row of it, writing it updates the "
+             "stored row when there is one (the id cache is filled from storage first) - never a second row", 2)
+    data_rows_follow_storage(ctx, rep, "C09.R12")
